@@ -31,13 +31,33 @@ COMMON = dict(pure=PURE, unpack_types={'noise': 'real'}, local_types={'variances
               division='abort', sqrt='nan')
 
 
+class ModelCtorHooks:
+    """The model constructors of _setup: each call yields a fresh object whose `total` attribute is the constructor's third
+    argument (ASSUMED constructor contract; GraphicalModel / RegionGraph / FactorGraph __init__ store it: `self.total = total`),
+    so that the postcondition can say what the INSTALLED model's total is, whichever way the model was obtained."""
+    def __init__(self, ctor_names):
+        self.ctors = set(ctor_names)
+
+    def call(self, eng, st, name, recv, args, kw, node):
+        from ..vc import engine as E
+        if recv is None and name in self.ctors and len(args) >= 3:
+            o = E.Obj(eng.fresh('built_model', E.V), cls=name)
+            st.fields[(str(o.t), 'total')] = args[2]
+            return o
+        return NotImplemented
+
+
 def setup_contract(cls, ctor_names):
     sites = list(APPEND_SITES)
     for nm in ctor_names:
         sites.append(dict(func=nm, arg=2, name='model-total',
                           spec='same(__arg, total__old) if total__old is not None else '
                                '(same(__arg, 1) if len(estimates) == 0 else same(__arg, %s))' % FORMULA))
-    return dict(COMMON, params=dict(self='obj:' + cls, measurements='seq:obj', total='obj:'), requires=[], ensures={}, sites=sites)
+    # the installed model's own total is the total in force (a model kept from an earlier call carries that call's total)
+    return dict(COMMON, params=dict(self='obj:' + cls, measurements='seq:obj', total='obj:'), requires=[], sites=sites,
+                ctor_names=list(ctor_names),
+                uses_locals=['total'],
+                ensures={'installed-model-carries-the-total-in-force': 'same(self.model.total, total)'})
 
 
 EST_TOTAL = dict(COMMON, params=dict(measurements='seq:obj'), requires=[], sites=list(APPEND_SITES),
@@ -61,4 +81,5 @@ ITEMS = [
 
 
 def hooks_for(contract):
-    return SiteSpecHooks(contract.get('sites', []))
+    inner = ModelCtorHooks(contract['ctor_names']) if contract.get('ctor_names') else None
+    return SiteSpecHooks(contract.get('sites', []), inner=inner)
